@@ -1032,7 +1032,11 @@ func (rn *runner) genValidate(r *vh.Rand) string {
 			i := r.Intn(len(ps))
 			if len(ps[i]) > 0 {
 				j := r.Intn(min(len(ps[i]), 6))
-				ps[i][j] = []byte{0, 1, 2, 6, 0x1c, 0x40, 0x46, 0x80, 0xc0, 0xff}[r.Intn(10)]
+				if j == 0 {
+					ps[i][j] = []byte{0, 1, 2, 6, 0x1c, 0x40, 0x46, 0x80, 0xc0, 0xff}[r.Intn(10)]
+				} else { // never a 4/8-byte varint prefix: a multi-gigabyte declared length would make the real reader allocate it
+					ps[i][j] = []byte{0, 1, 2, 6, 0x1c, 0x3f, 0x40, 0x46, 0x7f}[r.Intn(9)]
+				}
 			}
 		}
 	case 4: // append something
